@@ -98,6 +98,14 @@ def run(ctx):
                        expect_rc=0, expect_out=None,
                        drain=rnd.choice([None, None, (4096, 0.0005), (65536, 0.002)]),
                        feed=rnd.choice([None, None, ([99999, 1, 100001], 0.0005)])))
+    for i in range(24 if q else 500):
+        d = rnd.choice(plains[:6])
+        w = rnd.choice([1, 2, 3, 4])
+        ultra = rnd.random() < 0.3
+        cs.append(dict(kind='compress-u' if ultra else 'compress', name='plain%d-holdblock' % plains.index(d), stdin=d, w=w,
+                       env={'LBZIP2_VERIF_SCHED': '%d:holdblock:%d' % (rnd.randrange(1, 1 << 30), rnd.choice([100, 250]))},
+                       argv=(lambda lb, w=w, ultra=ultra: [lb, '-1', '-n', str(w)] + (['-u'] if ultra else [])),
+                       expect_rc=0, expect_out=None, drain=rnd.choice([None, (4096, 0.0005)])))
     # decompression workloads
     comps = []
     for d in plains[:8]:
@@ -165,7 +173,11 @@ def run(ctx):
     for i in range(30 if q else 600):
         data, plain = comps[many_tiny_idx - (i % 2 if not q else 0)] if not q else comps[many_tiny_idx - i % 2]
         w = rnd.choice([2, 2, 3, 4])
-        env = {'LBZIP2_VERIF_SCHED': '%d:straggler:%d' % (rnd.randrange(1, 1 << 30), rnd.choice([30, 80, 150]))}
+        if rnd.random() < 0.7:
+            # hold back the head block only (key 0): everything behind it must pile up within the queue capacities
+            env = {'LBZIP2_VERIF_SCHED': '%d:holdblock:%d' % (3 * rnd.randrange(1, 1 << 20), rnd.choice([150, 300, 500]))}
+        else:
+            env = {'LBZIP2_VERIF_SCHED': '%d:straggler:%d' % (rnd.randrange(1, 1 << 30), rnd.choice([30, 80, 150]))}
         cs.append(dict(kind='decompress', name='head+many-tiny', stdin=data, w=w, env=env,
                        argv=(lambda lb, w=w: [lb, '-d', '-n', str(w)]), expect_rc=0, expect_out=plain,
                        feed=rnd.choice([None, ([len(data) // 3, 1 << 20], 0.05)])))
